@@ -120,6 +120,24 @@ class C05(Prop):
                         case = 'xs limits 4000 - - | eval %s | stack' % hexsrc(src)
                         cs.append(case)
                         self.word_expect[case] = ((v % (1 << w)).to_bytes(w // 8, order), src)
+        # the float pack words on values a 32-bit / 64-bit float represents exactly (infinities, zeros of both signs, subnormals, the
+        # largest finite values): the packed bytes are the IEEE pattern in the requested order, and reading them back gives the value
+        import struct
+        f32pat = [0, 0x80000000, 0x7f800000, 0xff800000, 0x00000001, 0x807fffff, 0x00800000, 0x7f7fffff, 0xff7fffff, 0x3f800000, 0xc0490fdb, 0x7f000000]
+        f64pat = [0, 1 << 63, 0x7ff0000000000000, 0xfff0000000000000, 1, 0x800fffffffffffff, 0x0010000000000000, 0x7fefffffffffffff,
+                  0xffefffffffffffff, 0x3ff0000000000000, 0xc00921fb54442d18]
+        for setting in ('little', 'big', ''):
+            for w, pats in ((32, f32pat), (64, f64pat)):
+                for pat in pats:
+                    if w == 32:
+                        r64 = struct.unpack('>Q', struct.pack('>d', struct.unpack('>f', pat.to_bytes(4, 'big'))[0]))[0]
+                    else:
+                        r64 = pat
+                    for word, order in (('f%d!' % w, 'big' if setting == 'big' else 'little'), ('f%dle!' % w, 'little'), ('f%dbe!' % w, 'big'),
+                                        ('%d float!' % w, 'big' if setting == 'big' else 'little')):
+                        case = 'xs limits 4000 - - | push R%016x | eval %s | stack' % (r64, hexsrc(('%s %s' % (setting, word)).strip()))
+                        cs.append(case)
+                        self.word_expect[case] = (pat.to_bytes(w // 8, order), '%s %s on R%016x' % (setting, word, r64))
         # the sized pack / read words at every width, both settings of the byte order: packing then reading returns the value reduced to
         # the width (the read words tag their result with the width: compared after stripping)
         self.rt_expect = {}
